@@ -25,7 +25,11 @@
 #include "src/pdsh/mod.h"
 
 int pdsh_module_priority = MOD_PRIO;
-struct pdsh_module pdsh_module_info;
+
+/* the fixture never refers to its own exported symbols by name: under RTLD_GLOBAL such a reference
+ * binds to the FIRST module that was loaded (symbol interposition), not to this file */
+static struct pdsh_module m_info;
+static int m_init(void);
 
 static char self[256] = "?";
 
@@ -49,11 +53,11 @@ static void mark(const char *what, int c)
 __attribute__((constructor)) static void m_loaded(void)
 {
     Dl_info di;
-    if (dladdr((void *) &pdsh_module_priority, &di) && di.dli_fname) {
+    if (dladdr((void *) m_init, &di) && di.dli_fname) {
         const char *s = strrchr(di.dli_fname, '/');
         strncpy(self, s ? s + 1 : di.dli_fname, sizeof self - 1);
     }
-    pdsh_module_info.descr = self;
+    m_info.descr = self;
     mark("L", 0);
 }
 
@@ -76,7 +80,8 @@ static struct pdsh_module_option m_opts[] = {
     PDSH_OPT_TABLE_END
 };
 
-struct pdsh_module pdsh_module_info = {
+static struct pdsh_module m_info = {
     MOD_TYPE, MOD_NAME, "verif", "?", MOD_PERS,
     &m_ops, &m_rcmd, &m_opts[0],
 };
+extern struct pdsh_module pdsh_module_info __attribute__((alias("m_info")));
